@@ -63,6 +63,19 @@ def ident(s):
     return s.replace(".", "_")
 
 
+UKINDS = ("u", "up", "u1", "un", "uc")      # task.unique in the script's own context: keyword kill_me, positional
+                                              # kill_me, default kill_me, inside a nested function, inside a comprehension
+
+
+def deco_names(p):
+    return sorted({l[4][0] for l in p["launch"] if l[1] == "deco"})
+
+
+def deco_fn(p, ctx, deco):
+    """identifier of the decorated function for (name, kill_me): names may be any string, so they are numbered"""
+    return f"dk_{ident(ctx)}_{deco_names(p).index(deco[0])}_{int(bool(deco[1]))}"
+
+
 # ------------------------------------------------------------------ scenario -> script files
 def gen_files(p):
     files = {}
@@ -87,6 +100,20 @@ def gen_files(p):
                "        if st[0] == 'u':",
                "            task.unique(st[1], kill_me=st[2])",
                "            rec('chk', i, j, owns(st[1]))",
+               "        elif st[0] == 'up':",
+               "            task.unique(st[1], st[2])",
+               "            rec('chk', i, j, owns(st[1]))",
+               "        elif st[0] == 'u1':",
+               "            task.unique(st[1])",
+               "            rec('chk', i, j, owns(st[1]))",
+               "        elif st[0] == 'un':",
+               "            def inner(nm, km):",
+               "                task.unique(nm, kill_me=km)",
+               "                return owns(nm)",
+               "            rec('chk', i, j, inner(st[1], st[2]))",
+               "        elif st[0] == 'uc':",
+               "            [task.unique(nm, kill_me=st[2]) for nm in [st[1]]]",
+               "            rec('chk', i, j, owns(st[1]))",
                "        elif st[0] == 'm':",
                "            rec('chk', i, j, m.excl(st[1], kill_me=st[2]))",
                "        elif st[0] == 's':",
@@ -104,14 +131,19 @@ def gen_files(p):
                "@service",
                f"def svc_{c}(i=None):",
                "    runner(i)",
+               "",
+               f"@event_trigger('cr_{c}')",
+               "def crl(i=None):",
+               "    task.create(runner, i)",
                ""]
         decos = sorted({(l[4][0], bool(l[4][1])) for l in p["launch"] if l[2] == ci and l[1] == "deco"})
         for name, km in decos:
-            fn = f"dk_{c}_{ident(name)}_{int(km)}"
+            fn = deco_fn(p, ctx, [name, km])
+            lit = int(km) if deco_names(p).index(name) % 2 else km      # kill_me=1 / 0 are accepted like True / False
             # every decorated function has THREE trigger decorators - two of the same kind and one of another kind -
             # all of which must apply the same @task_unique rule (launch field deco[2] says which one fires)
             src += [f"@event_trigger('{fn}')", f"@event_trigger('{fn}_b')", f"@state_trigger('pyscript.{fn}_s')",
-                    f"@task_unique({name!r}, kill_me={km})", f"def {fn}(i=None, value=None, **kwargs):",
+                    f"@task_unique({name!r}, kill_me={lit})", f"def {fn}(i=None, value=None, **kwargs):",
                     "    if i is None:", "        i = int(value)", "    runner(i)", ""]
         files[CTX_FILE[ctx]] = "\n".join(src)
     return files
@@ -239,8 +271,10 @@ async def _body(env, p):
                 env.hass.bus.async_fire(f"go_{c}", {"i": i})
             elif kind == "svc":
                 loop.create_task(env.hass.services.async_call("pyscript", f"svc_{c}", {"i": i}, blocking=False))
+            elif kind == "create":
+                env.hass.bus.async_fire(f"cr_{c}", {"i": i})
             elif kind == "deco":
-                fn = f"dk_{c}_{ident(deco[0])}_{int(bool(deco[1]))}"
+                fn = deco_fn(p, ctx, deco)
                 which = deco[2] if len(deco) > 2 else 0
                 if which == 0:
                     env.hass.bus.async_fire(fn, {"i": i})
@@ -273,13 +307,25 @@ async def _body(env, p):
             loop.call_at(base + l[0] * GRID, fire, i)
 
         snap_ctx = {ctx: AstEval(f"{ctx}.snap", g) for ctx, g in ctx_objs.items()}
+        all_names = sorted({st[1] for pl in p["plans"] for st in pl if st[0] in UKINDS + ("m",)} | set(deco_names(p)))
 
         def snapshot():
             views = {}
             for ctx in p["ctxs"]:
                 views[ctx] = dict(Function.task_name2id_factory(snap_ctx[ctx])())
             seen = [e[1] for e in trace if e[0] == "sp"]
-            snap = {"views": views,
+            # task.name2id(name) - with an argument - must say the same as task.name2id(): owner, or NameError
+            disagree = []
+            for ctx in p["ctxs"]:
+                fn = Function.task_name2id_factory(snap_ctx[ctx])
+                for nm in all_names:
+                    try:
+                        one = fn(nm)
+                    except NameError:
+                        one = None
+                    if one is not views[ctx].get(nm):
+                        disagree.append(f"{ctx}:{nm}")
+            snap = {"views": views, "disagree": disagree,
                     "status": {t: ("r" if not t.done() else ("c" if t.cancelled() else "d")) for t in seen},
                     "queue": [c[1] for c in list(q._queue) if c and c[0] == "cancel"],
                     "ours": set(Function.our_tasks),
@@ -374,7 +420,7 @@ def _canon(p, trace, records):
             s = r[2]
             views = {ctx: {nm: plan_of.get(t, -1) for nm, t in s["views"][ctx].items()} for ctx in p["ctxs"]}
             st = {str(i): s["status"].get(t, "?") for t, i in plan_of.items()}
-            log.append(["snap", views, st])
+            log.append(["snap", views, st, list(s.get("disagree", []))])
     return {"impl": "ok " + " ".join(toks), "line": line, "log": log}
 
 
@@ -422,10 +468,10 @@ def oracle(p, log):
         elif tag == "b":
             i, j = e[1], e[2]
             st = plans[i][j]
-            if st[0] in ("u", "m"):
+            if st[0] in UKINDS + ("m",):
                 # task.unique is specific to the CURRENT global context: that of the function executing the call -
                 # the script's own context for 'u', the module's for a call made inside the imported helper ('m')
-                key = (ctx_of[i] if st[0] == "u" else MOD, st[1])
+                key = (ctx_of[i] if st[0] != "m" else MOD, st[1])
                 pending[i] = (key, bool(st[2]), owner(key))
             elif st[0] == "r":
                 ended.add(i)
@@ -433,7 +479,7 @@ def oracle(p, log):
         elif tag == "a":
             i, j = e[1], e[2]
             st = plans[i][j]
-            if st[0] in ("u", "m"):
+            if st[0] in UKINDS + ("m",):
                 key, km, o = pending.pop(i)
                 if km and o is not None and o != i and state.get(o) == "alive":
                     return f"killme-caller-continued-while-name-owned task={i} owner={o}"
@@ -451,6 +497,8 @@ def oracle(p, log):
             state[e[1]] = "dead"
         elif tag == "snap":
             views, st = e[1], e[2]
+            if len(e) > 3 and e[3]:
+                return f"name2id-with-argument-disagrees {e[3]}"
             # unique calls that never returned: the caller parked itself
             for i, (key, km, o) in list(pending.items()):
                 if not (km and o is not None and o != i):
@@ -491,6 +539,9 @@ def oracle(p, log):
                     extra = sorted(set(got) - set(exp))
                     if extra:
                         return f"name2id-stale-or-alien-name ctx={ctx} names={extra}"
+                    if "" in exp and "" not in got and exp[""] in deco and deco[exp[""]][0] == "":
+                        # the run was started by a function decorated @task_unique("") and does not own ""
+                        return f"deco-empty-name-not-claimed ctx={ctx} task={exp['']}"
                     return f"name2id-wrong-owner ctx={ctx} expected={exp} got={got}"
             # every launch starts its own run (a decorated kill_me run may be dropped while the name is owned)
             for i, l in enumerate(L):
@@ -506,7 +557,7 @@ def oracle(p, log):
 def mk(p, tags):
     p = dict(p)
     c = Case(p, None, tags=tags)
-    c.nontrivial = any(st[0] in ("u", "m") for pl in p["plans"] for st in pl) or any(l[1] == "deco" for l in p["launch"])
+    c.nontrivial = any(st[0] in UKINDS + ("m",) for pl in p["plans"] for st in pl) or any(l[1] == "deco" for l in p["launch"])
     return c
 
 
@@ -536,7 +587,9 @@ def rand_plan(rng, names, mod=False):
         if mod and r < 0.25:
             pl.append(["m", rng.choice(names), rng.random() < 0.3])
         elif r < 0.55:
-            pl.append(["u", rng.choice(names), rng.random() < 0.3])
+            pl.append([rng.choice(["u", "u", "u", "up", "un", "uc"]), rng.choice(names), rng.random() < 0.3])
+        elif r < 0.6:
+            pl.append(["s", 0])
         else:
             pl.append(["s", rng.randrange(1, 4)])
     r = rng.random()
@@ -556,7 +609,7 @@ def family_b(rng, n):
         plans, launch = [], []
         for t in range(nt):
             plans.append(rand_plan(rng, names, mod))
-            kind = rng.choices(["trig", "svc", "deco", "foreign"], [50, 15, 20, 15])[0]
+            kind = rng.choices(["trig", "svc", "deco", "foreign", "create"], [40, 15, 20, 12, 13])[0]
             deco = [rng.choice(names), rng.random() < 0.5, rng.randrange(3)] if kind == "deco" else None
             launch.append([rng.randrange(4), kind, rng.randrange(2) if rng.random() < 0.4 else 0, t, deco])
         out += both({"ctxs": WITHMOD if mod else FLAT, "plans": plans, "launch": launch}, ("B", "mod") if mod else ("B",))
@@ -627,11 +680,63 @@ def family_c(rng, n):
     return out
 
 
+BNAMES = ["", "a", "a.b", "ab", "a b", "n\u00e4me\u2713", "file.a", "modules.m"]
+KM_VALUES = [0, None, "", 1, "x", True, False]
+
+
+def family_d(rng):
+    """boundary values (fixed set): odd names, kill_me forms, call forms, timing edges, entry points"""
+    out = []
+    # (1a) every boundary name claimed in three contexts at once (file.a, file.b directly, modules.m through the helper
+    #      from both scripts): only the two module claims meet
+    for nm in BNAMES:
+        out += both({"ctxs": WITHMOD,
+                     "plans": [[["u", nm, False], ["s", 3]], [["u", nm, False], ["s", 3]],
+                               [["m", nm, False], ["s", 3]], [["s", 1], ["m", nm, True], ["m", nm, False], ["s", 1]]],
+                     "launch": [[0, "trig", 0, 0, None], [0, "svc", 1, 1, None], [0, "create", 0, 2, None],
+                                [0, "trig", 1, 3, None]]}, ("D", "names"))
+    # (1b) names that are prefixes of each other are three different names
+    out += both({"ctxs": FLAT, "plans": [[["u", "a", False], ["s", 2]], [["u", "a.b", False], ["u", "ab", False], ["s", 2]],
+                                         [["s", 1], ["u", "a", True], ["s", 1]]],
+                 "launch": [[0, "trig", 0, 0, None], [0, "trig", 0, 1, None], [0, "svc", 0, 2, None]]}, ("D", "names"))
+    # (1c) kill_me forms: keyword / positional, falsy and truthy non-bools, default
+    for k, v in enumerate(KM_VALUES):
+        form = "u" if k % 2 == 0 else "up"
+        out += both({"ctxs": FLAT, "plans": [[["u", "n0", False], ["s", 3]], [["s", 1], [form, "n0", v], ["s", 1]]],
+                     "launch": [[0, "trig", 0, 0, None], [0, ["trig", "svc", "create"][k % 3], 0, 1, None]]},
+                    ("D", "killme-forms"))
+    out += both({"ctxs": FLAT, "plans": [[["u1", "n0", False], ["s", 3]], [["s", 1], ["u1", "n0", False], ["s", 1]]],
+                 "launch": [[0, "create", 0, 0, None], [0, "create", 0, 1, None]]}, ("D", "killme-forms"))
+    # (2) call forms: the owner claims again (with and without kill_me), from a nested function, from a comprehension,
+    #     right before returning, as the very first and only statement
+    out += both({"ctxs": FLAT, "plans": [[["u", "n0", False], ["u", "n0", False], ["u", "n0", True], ["up", "n0", 1],
+                                          ["s", 2]], [["s", 1], ["un", "n0", False], ["uc", "n1", False], ["s", 1]],
+                                         [["s", 1], ["uc", "n1", True]]],
+                 "launch": [[0, "trig", 0, 0, None], [0, "svc", 0, 1, None], [1, "create", 0, 2, None]]}, ("D", "forms"))
+    out += both({"ctxs": FLAT, "plans": [[["s", 1], ["u", "n0", False]], [["un", "n0", False]], [["u", "n0", True]]],
+                 "launch": [[0, "trig", 0, 0, None], [0, "trig", 0, 1, None], [0, "foreign", 0, 2, None]]}, ("D", "forms"))
+    # (3) timing: zero-length sleeps, a raise as the first statement, four runs in one burst (third and later)
+    out += both({"ctxs": FLAT, "plans": [[["u", "n0", False], ["s", 0], ["u", "n1", False], ["s", 0], ["s", 1]],
+                                         [["s", 0], ["u", "n0", False], ["s", 0], ["u", "n1", True], ["s", 1]], [["r"]]],
+                 "launch": [[0, "trig", 0, 0, None], [0, "create", 0, 1, None], [0, "svc", 0, 2, None]]}, ("D", "timing"))
+    for km in (True, False):
+        out += both({"ctxs": FLAT, "plans": [[["s", 2]] for _ in range(4)] + [[["r"]]],
+                     "launch": [[0, "deco", 0, t, ["n0", km, t % 3]] for t in range(4)] + [[1, "deco", 0, 4, ["n0", km, 1]]]},
+                    ("D", "timing"))
+    # (4) decorator names at the boundary (the second of the sorted names gets kill_me=1 / 0 instead of True / False)
+    for nm in ("", "a b", "a.b"):
+        for km in (True, False):
+            out += both({"ctxs": FLAT, "plans": [[["s", 2]], [["s", 1]], [["u", nm, False], ["s", 1]]],
+                         "launch": [[0, "deco", 0, 0, [nm, km, 0]], [1, "deco", 0, 1, [nm, km, 1]],
+                                    [1, "deco", 1, 2, ["n0", km, 2]]]}, ("D", "deco-names"))
+    return out
+
+
 def gen_cases(rng, tier, search):
-    na, nb, nc = (200, 200, 10) if tier == "quick" else (2500, 2500, 120)
+    na, nb, nc = (130, 150, 8) if tier == "quick" else (2500, 2500, 120)
     if search:
         na, nb, nc = na * 2, nb * 2, nc * 2
-    return family_c(rng, nc) + family_a(rng, na) + family_b(rng, nb)
+    return family_d(rng) + family_c(rng, nc) + family_a(rng, na) + family_b(rng, nb)
 
 
 # ------------------------------------------------------------------ module API
@@ -679,8 +784,8 @@ def verdict(c):
 def classify(c, reason):
     p = c.payload
     kind = reason.split(" ")[0]
-    pairs = {(p["ctxs"][l[2]] if st[0] == "u" else MOD, st[1]) for l, pl in zip(p["launch"], p["plans"])
-             for st in pl if st[0] in ("u", "m")}
+    pairs = {(p["ctxs"][l[2]] if st[0] != "m" else MOD, st[1]) for l, pl in zip(p["launch"], p["plans"])
+             for st in pl if st[0] in UKINDS + ("m",)}
     pairs |= {(p["ctxs"][l[2]], l[4][0]) for l in p["launch"] if l[1] == "deco"}
     if len({f"{c}.{n}" for c, n in pairs}) < len(pairs) and not kind.startswith("deco-"):
         # two different (context, name) pairs of this scenario are one key string: whatever the oracle saw first
@@ -750,7 +855,7 @@ def extra_coverage(cases):
             kinds[l[1]] = kinds.get(l[1], 0) + 1
         for pl in c.payload["plans"]:
             for st in pl:
-                k = st[0] + (":km" if st[0] in ("u", "m") and st[2] else "")
+                k = st[0] + (":km" if st[0] in UKINDS + ("m",) and len(st) > 2 and st[2] else "")
                 steps[k] = steps.get(k, 0) + 1
         for t in (c.impl or "").split():
             if ":" in t and t[0] in "urxdc" and len(t) < 8:
